@@ -13,7 +13,7 @@ if "--round" in sys.argv:
     rnd = int(sys.argv[sys.argv.index("--round") + 1])
 wt = "/tmp/seed-%s" % pid if rnd == 1 else "/tmp/seed%d-%s" % (rnd, pid)
 sd = os.path.join(wt, "seed%s" % k)
-out = "/verif/seeded/%s-%s" % (pid, k if rnd == 1 else str(int(k) + 2 + 3 * (rnd - 2)))
+out = "/verif/seeded/%s-%s" % (pid, k if rnd == 1 else str(int(k) + 2 + 3 * (rnd - 2)) if rnd < 6 else str(int(k) + 13 + 2 * (rnd - 6)))
 env = dict(os.environ, CARGO_TARGET_DIR=wt + "/target", CARGO_NET_OFFLINE="true")
 
 
